@@ -213,6 +213,7 @@ INVARIANT NoLatePush
 INVARIANT ItemsCorrect
 INVARIANT ResultCorrect
 INVARIANT PoppedFinal
+INVARIANT NextTokenIsExtension
 CHECK_DEADLOCK FALSE
 """
 
@@ -225,7 +226,7 @@ def model_check(report, tier):
         res = run_tlc("MCEarley", MC_CFG % (K, maxn, ws), timeout=3000)
         if not res.ok or res.left != 0:
             raise MachineryError("MCEarley: design-level check failed (the model, not the code):\n" + res.errhead)
-        report.add_tlc(res, f"MCEarley K={K} MAXN={maxn} weights={{{ws}}}: NoLatePush, ItemsCorrect, ResultCorrect, PoppedFinal")
+        report.add_tlc(res, f"MCEarley K={K} MAXN={maxn} weights={{{ws}}}: NoLatePush, ItemsCorrect, ResultCorrect, PoppedFinal, NextTokenIsExtension")
 
 
 def run(report, tier, seed):
